@@ -678,13 +678,16 @@ class Spectrum:
 
         # a bound that falls between two samples cuts the interval it falls
         # in: the (linearly interpolated) end point is part of the integrand
+        head = tail = False
         if self.wave.size > 1 and end > start:
             lo, hi = max(start, np.min(self.wave)), min(end, np.max(self.wave))
             if hi > lo:
                 if wave.size == 0 or lo < wave[0]:
+                    head = True
                     wave = np.concatenate(([lo], wave))
                     value = np.concatenate(([np.interp(lo, self.wave, self.value)], value))
                 if hi > wave[-1]:
+                    tail = True
                     wave = np.concatenate((wave, [hi]))
                     value = np.concatenate((value, [np.interp(hi, self.wave, self.value)]))
 
@@ -695,7 +698,18 @@ class Spectrum:
             return 0.0
 
         if method == 'simps':
-            result = scipy.integrate.simpson(x=wave, y=value)
+            # Simpson's rule runs over the whole sample intervals only: its
+            # weights are positive on a uniform grid, not on one that starts
+            # or ends with a cut (shorter) interval. The cut intervals are
+            # linear between their end points
+            first, last = int(head), wave.size - int(tail)
+            result = 0.0
+            if last - first >= 2:
+                result = result + scipy.integrate.simpson(x=wave[first:last], y=value[first:last])
+            if head:
+                result = result + np.trapz(value[:2], wave[:2])
+            if tail and not (head and wave.size == 2):
+                result = result + np.trapz(value[-2:], wave[-2:])
         elif method == 'trapz':
             result = np.trapz(value, wave)
         else:
